@@ -25,6 +25,14 @@ Proof.
   induction k as [|k IH]; intros m H; [reflexivity|]. cbn [seq map]. rewrite (skipn_nth_gen l d m) by lia. cbn [firstn]. f_equal. apply IH. lia.
 Qed.
 
+Lemma NoDup_app_iff_local {A} (l : list A) (x : A) : NoDup l -> ~ In x l -> NoDup (l ++ [x]).
+Proof.
+  intros Hnd Hx. induction l as [|y r IH]; [constructor; [intros []|constructor]|].
+  inversion Hnd as [|? ? Hy Hr]; subst. cbn [app]. constructor.
+  - intro H. apply in_app_or in H as [H|[H|[]]]; [contradiction|]. subst. apply Hx. now left.
+  - apply IH; [exact Hr|]. intro H. apply Hx. now right.
+Qed.
+
 Section Reorder.
 Variable all : list packet.
 Variable s0 : Z.
@@ -320,4 +328,157 @@ Proof.
   exact (feed_reordered order 0%nat [] None R (Nat.le_0_l n) (SSorted_nil lt) (Forall_nil _) (or_intror (conj eq_refl (conj eq_refl (or_introl eq_refl))))
            HR Hd Hnd (fun i _ H => H) Hset (fun _ _ => Hfirst) (fun _ => eq_refl)).
 Qed.
+
+(* ---------- loss: any SUBSET of the segments, in any order that keeps the first segment first ---------- *)
+(* what is released is always a beginning of the record sequence: nothing is spliced across a hole *)
+Lemma feed_lossy rest : forall m idxs next Rrest,
+  (m <= n)%nat -> incr idxs -> Forall (fun i => (m <= i < n)%nat) idxs -> anchor next m idxs ->
+  Forall wf_rec Rrest -> data (skipn m all) = concat Rrest ->
+  NoDup rest -> (forall i, In i rest -> ~ In i idxs) -> Forall (fun i => (m <= i < n)%nat) rest ->
+  (next = None -> idxs = [] -> match rest with [] => True | j :: _ => j = 0%nat end) ->
+  exists n' buf recs R2, ReasmP.feed next (map pk idxs) (map pk rest) = Ok (n', buf, recs) /\ Rrest = map r_raw recs ++ R2.
+Proof.
+  induction rest as [|j rest' IH]; intros m idxs next Rrest Hm Hs Hb Ha HR Hd Hnd Hdis Hrest Hfirst.
+  - cbn [map ReasmP.feed]. exists next, (map pk idxs), [], Rrest. split; reflexivity.
+  - inversion Hrest as [|? ? Hj Hrest']; subst.
+    assert (Hnj : ~ In j idxs) by (apply Hdis; now left).
+    inversion Hnd as [|? ? Hjr Hnd']; subst.
+    destruct (ins_spec' j idxs Hs Hnj) as [Hs' Hin'].
+    assert (Hb' : Forall (fun i => (m <= i < n)%nat) (ins j idxs)).
+    { rewrite Forall_forall in *. intros i Hi. apply Hin' in Hi. destruct Hi as [->|Hi]; [exact Hj|exact (Hb i Hi)]. }
+    assert (Ha' : anchor next m (ins j idxs)) by (apply anchor_ins; [exact Ha|exact Hnj|intros Hn Hi; exact (Hfirst Hn Hi)]).
+    assert (Hbn : Forall (fun i => (i < n)%nat) idxs) by (eapply Forall_impl; [|exact Hb]; cbn; intros; lia).
+    assert (Hsortb : sort_seq (map pk idxs ++ [pk j]) = map pk (ins j idxs)) by (apply sort_buffer; [exact Hs|exact Hbn|lia|exact Hnj]).
+    assert (Hkeep : exists n' buf recs R2, ReasmP.feed next (map pk (ins j idxs)) (map pk rest') = Ok (n', buf, recs) /\ Rrest = map r_raw recs ++ R2).
+    { apply (IH m (ins j idxs) next Rrest); auto.
+      - intros i Hi Hi2. apply Hin' in Hi2. destruct Hi2 as [->|Hi2]; [contradiction|]. exact (Hdis i (or_intror Hi) Hi2).
+      - intros _ E. exfalso. exact (ins_nonempty j idxs E). }
+    cbn [map ReasmP.feed].
+    destruct (list_eq_dec Nat.eq_dec (ins j idxs) (seq m (length (ins j idxs)))) as [Eq|Neq].
+    + set (k := length (ins j idxs)) in *.
+      assert (Hk : (0 < k)%nat) by (subst k; destruct (ins j idxs) eqn:E; [exfalso; exact (ins_nonempty j idxs E)|cbn; lia]).
+      assert (Hmk : (m + k <= n)%nat).
+      { assert (Hl : In (m + k - 1)%nat (ins j idxs)) by (rewrite Eq; apply in_seq; lia). rewrite Forall_forall in Hb'. specialize (Hb' _ Hl). lia. }
+      assert (Hak : anchor next m (seq m k)) by (rewrite <- Eq; exact Ha').
+      assert (Hsr : sort_seq (map pk idxs ++ [pk j]) = run m k) by (rewrite Hsortb, Eq; apply map_pk_seq; exact Hmk).
+      destruct (extract_run next m k Rrest Hk Hmk Hak HR Hd _ Hsr) as [(R1 & R2 & recs1 & -> & Hd2 & Hm1 & He)|(He & Hlt)].
+      * rewrite He. cbn [bind]. apply Forall_app in HR as [HR1 HR2].
+        assert (Hrest2 : Forall (fun i => (m + k <= i < n)%nat) rest').
+        { rewrite Forall_forall in *. intros i Hi. pose proof (Hrest' i Hi) as Hr. split; [|lia].
+          destruct (Nat.lt_ge_cases i (m + k)) as [L|L]; [|exact L]. exfalso.
+          assert (Hx : In i (ins j idxs)) by (rewrite Eq; apply in_seq; lia). apply Hin' in Hx. destruct Hx as [->|Hx]; [contradiction|exact (Hdis i (or_intror Hi) Hx)]. }
+        destruct (IH (m + k)%nat [] (Some ((s0 + off (m + k)) mod M32)) R2 Hmk (SSorted_nil lt) (Forall_nil _) (or_introl eq_refl) HR2 Hd2 Hnd'
+                     (fun i _ H => H) Hrest2 (fun H => ltac:(discriminate H))) as (n2 & buf2 & recs2 & R3 & Hf2 & Hm2).
+        cbn [map] in Hf2. rewrite Hf2. cbn [bind]. exists n2, buf2, (recs1 ++ recs2), R3. split; [reflexivity|].
+        rewrite map_app, Hm1, Hm2, app_assoc. reflexivity.
+      * rewrite He. cbn [bind]. rewrite <- (map_pk_seq m k Hmk), <- Eq.
+        destruct Hkeep as (n2 & buf2 & recs2 & R3 & Hf2 & Hm2).
+        rewrite Hf2. cbn [bind]. exists n2, buf2, recs2, R3. split; [reflexivity|exact Hm2].
+    + assert (Hgc : (match next, map pk (ins j idxs) with Some v, p :: _ => p_seq p =? v | _, _ => true end) && contiguous (map pk (ins j idxs)) = false).
+      { destruct (_ && _) eqn:E; [|reflexivity]. exfalso. apply Neq. apply (gate_contiguous_run next m); auto. apply ins_nonempty. }
+      unfold extract at 1. rewrite Hsortb, Hgc. cbn [bind].
+      destruct Hkeep as (n2 & buf2 & recs2 & R3 & Hf2 & Hm2).
+      rewrite Hf2. cbn [bind]. exists n2, buf2, recs2, R3. split; [reflexivity|exact Hm2].
+Qed.
+
+(* any selection of the segments (each at most once, the direction's first segment captured first), in any order: the records released
+   are a beginning of the records sent -- a lost segment stops the stream, it never lets the reassembler join its neighbours *)
+Theorem lossy_delivers_prefix R order : Forall wf_rec R -> data all = concat R -> NoDup order -> Forall (fun i => (i < n)%nat) order ->
+  match order with [] => True | j :: _ => j = 0%nat end ->
+  exists n' buf recs R2, ReasmP.feed None [] (map pk order) = Ok (n', buf, recs) /\ R = map r_raw recs ++ R2.
+Proof.
+  intros HR Hd Hnd Hb Hfirst.
+  assert (Hb0 : Forall (fun i => (0 <= i < n)%nat) order) by (eapply Forall_impl; [|exact Hb]; cbn; intros; lia).
+  exact (feed_lossy order 0%nat [] None R (Nat.le_0_l n) (SSorted_nil lt) (Forall_nil _) (or_intror (conj eq_refl (conj eq_refl (or_introl eq_refl))))
+           HR Hd Hnd (fun i _ H => H) Hb0 (fun _ _ => Hfirst)).
+Qed.
+
+(* ---------- any arrivals at all: loss, retransmitted copies and reordering together ---------- *)
+(* first occurrences, in order of arrival *)
+Fixpoint uniq (seen l : list nat) : list nat :=
+  match l with
+  | [] => []
+  | x :: r => if existsb (Nat.eqb x) seen then uniq seen r else x :: uniq (seen ++ [x]) r
+  end.
+
+Lemma pk_seq_inj i j : (i < n)%nat -> (j < n)%nat -> p_seq (pk i) = p_seq (pk j) -> i = j.
+Proof.
+  intros Hi Hj E. pose proof (seq_lt_idx i j Hi Hj) as H1. pose proof (seq_lt_idx j i Hj Hi) as H2. rewrite E in H1, H2.
+  rewrite H1 in H2. destruct (Nat.ltb_spec i j); destruct (Nat.ltb_spec j i); try discriminate; lia.
+Qed.
+
+Lemma existsb_eqb_In x l : existsb (Nat.eqb x) l = true <-> In x l.
+Proof. rewrite existsb_exists. split; [intros (y & Hy & E); apply Nat.eqb_eq in E; subst; exact Hy|intros H; exists x; split; [exact H|apply Nat.eqb_refl]]. Qed.
+
+Lemma mem_seen x seen : (x < n)%nat -> Forall (fun i => (i < n)%nat) seen -> mem_Z (p_seq (pk x)) (map p_seq (map pk seen)) = existsb (Nat.eqb x) seen.
+Proof.
+  intros Hx Hs. destruct (existsb (Nat.eqb x) seen) eqn:E.
+  - apply existsb_eqb_In in E. apply mem_Z_In. apply in_map. apply in_map. exact E.
+  - destruct (mem_Z _ _) eqn:M; [|reflexivity]. exfalso. apply mem_Z_In in M. rewrite map_map in M. apply in_map_iff in M as (y & Hy & Hin).
+    rewrite Forall_forall in Hs. pose proof (pk_seq_inj y x (Hs y Hin) Hx Hy) as ->.
+    apply existsb_eqb_In in Hin. congruence.
+Qed.
+
+Lemma accept_uniq l : forall seen, Forall (fun i => (i < n)%nat) seen -> Forall (fun i => (i < n)%nat) l ->
+  fold_left accept (map pk l) (map p_seq (map pk seen), map pk seen) = (map p_seq (map pk (seen ++ uniq seen l)), map pk (seen ++ uniq seen l)).
+Proof.
+  induction l as [|x r IH]; intros seen Hs Hl.
+  - cbn [map fold_left uniq]. rewrite app_nil_r. reflexivity.
+  - inversion Hl as [|? ? Hx Hr]; subst. cbn [map fold_left uniq]. unfold accept at 2. cbn [fst snd]. rewrite (mem_seen x seen Hx Hs).
+    destruct (existsb (Nat.eqb x) seen) eqn:E.
+    + apply IH; assumption.
+    + replace (map p_seq (map pk seen) ++ [p_seq (pk x)]) with (map p_seq (map pk (seen ++ [x]))) by (rewrite !map_app; reflexivity).
+      replace (map pk seen ++ [pk x]) with (map pk (seen ++ [x])) by (rewrite map_app; reflexivity).
+      rewrite IH; [|apply Forall_app; split; [exact Hs|constructor; [exact Hx|constructor]]|exact Hr].
+      rewrite <- app_assoc. reflexivity.
+Qed.
+
+Lemma uniq_spec l : forall seen, NoDup seen -> NoDup (seen ++ uniq seen l) /\ (forall i, In i (uniq seen l) -> In i l).
+Proof.
+  induction l as [|x r IH]; intros seen Hnd.
+  - cbn [uniq]. rewrite app_nil_r. split; [exact Hnd|intros i []].
+  - cbn [uniq]. destruct (existsb (Nat.eqb x) seen) eqn:E.
+    + destruct (IH seen Hnd) as [H1 H2]. split; [exact H1|intros i Hi; right; exact (H2 i Hi)].
+    + assert (Hnx : ~ In x seen) by (intro H; apply existsb_eqb_In in H; congruence).
+      assert (Hnd' : NoDup (seen ++ [x])).
+      { apply NoDup_app_iff_local. exact Hnd. exact Hnx. }
+      destruct (IH (seen ++ [x]) Hnd') as [H1 H2]. rewrite <- app_assoc in H1. split; [exact H1|].
+      intros i [->|Hi]; [now left|right; exact (H2 i Hi)].
+Qed.
+
+(* ANY sequence of arrivals drawn from the direction's segments -- any of them lost, any of them captured several times, in any order,
+   as long as the direction's first segment is captured first -- after the duplicate memory (accept) releases a beginning of the records *)
+Theorem any_arrivals_prefix R arr : Forall wf_rec R -> data all = concat R -> Forall (fun i => (i < n)%nat) arr ->
+  match arr with [] => True | j :: _ => j = 0%nat end ->
+  exists n' buf recs R2, ReasmP.feed None [] (snd (fold_left accept (map pk arr) ([], []))) = Ok (n', buf, recs) /\ R = map r_raw recs ++ R2.
+Proof.
+  intros HR Hd Hb Hfirst.
+  pose proof (accept_uniq arr [] (Forall_nil _) Hb) as Ha. cbn [map app] in Ha. rewrite Ha. cbn [snd].
+  destruct (uniq_spec arr [] (NoDup_nil _)) as [Hnd Hsub]. cbn [app] in Hnd.
+  apply (lossy_delivers_prefix R (uniq [] arr) HR Hd Hnd).
+  - rewrite Forall_forall in *. intros i Hi. exact (Hb i (Hsub i Hi)).
+  - destruct arr as [|j r]; [exact I|]. cbn [uniq existsb]. exact Hfirst.
+Qed.
 End Reorder.
+
+
+(* the hypotheses of lossy_delivers_prefix are satisfiable, and the case that matters is covered: four 7-byte records, the stream running
+   across 2^32; after the first record the segments are 7 bytes long but three bytes out of step with the records; one of them is lost.
+   Joined, the segments around the hole would again be a well-framed run of records (23 3 3 | 0 2 30 31); nothing of it is released:
+   only the first record comes out, the three segments behind it stay buffered *)
+Definition ex_seg (sq : Z) (d : bytes) : packet :=
+  {| p_ts := 0; p_tsid := 0; p_kind := L4Tcp; p_v6 := false; p_src := []; p_dst := []; p_smac := []; p_dmac := []; p_sport := 1; p_dport := 2;
+     p_seq := sq; p_data := d; p_proto := 6; p_seg := []; p_sum := 0 |}.
+Definition ex_R : list bytes := [[23; 3; 3; 0; 2; 10; 11]; [23; 3; 3; 0; 2; 20; 21]; [23; 3; 3; 0; 2; 30; 31]; [23; 3; 3; 0; 2; 40; 41]].
+Definition ex_chunks : list packet :=
+  [ex_seg 4294967290 [23; 3; 3; 0; 2; 10; 11]; ex_seg 1 [23; 3; 3]; ex_seg 4 [0; 2; 20; 21; 23; 3; 3]; ex_seg 11 [0; 2; 30; 31; 23; 3; 3]; ex_seg 18 [0; 2; 40; 41]].
+Example lossy_example :
+  in_order 4294967290 ex_chunks /\ data ex_chunks = concat ex_R /\ Forall wf_rec ex_R /\
+  (exists nx b, ReasmP.feed None [] (map (fun i => nth i ex_chunks (ex_seg 0 [])) [0; 1; 3; 4]%nat) =
+                Ok (nx, b, [mk_record [23; 3; 3; 0; 2; 10; 11] [ex_seg 4294967290 [23; 3; 3; 0; 2; 10; 11]]]) /\ length b = 3%nat).
+Proof.
+  split; [|split; [reflexivity|split]].
+  - cbn. repeat split; try discriminate; reflexivity.
+  - repeat constructor; unfold bytes_ok; repeat constructor; cbn; try lia; reflexivity.
+  - eexists _, _. split; [vm_compute; reflexivity|reflexivity].
+Qed.
